@@ -344,7 +344,14 @@ func play(c *vf.Case, kind zoo.Kind, optSeed *vf.Rand, ops []op, scribble bool) 
 				if err != nil {
 					hb = []byte(fmt.Sprintf("unmarshalable header %+v: %v", h, err))
 				}
-				tr.add(fmt.Sprintf("next-writer/%d", i), ev.VTime, append(hb, ev.Payload...))
+				at := ev.VTime
+				if kind == zoo.CCLeakyBucket || kind == zoo.Pacing {
+					// a pacer's queue is FIFO: the ORDER at the next writer is defined, the release
+					// instants are not (the GCC estimator's parallel pipeline stages may apply a
+					// rate update before or after a tick) - keep the order, drop the instants
+					at = time.Time{}
+				}
+				tr.add(fmt.Sprintf("next-writer/%d", i), at, append(hb, ev.Payload...))
 			}
 		}
 		for _, ev := range rtcpOut.Events() {
